@@ -259,3 +259,58 @@ def float_fields(p) -> list:
             out.append((path + ".z", x.z, 5, 5))
             todo += [(path + ".l", x.l), (path + ".r", x.r)]
     return out
+
+
+# ----------------------------------------------------------------------------------------
+# leaves chosen among GIVEN objects of a terminal class (a palette): the chosen object itself becomes a leaf of the
+# program, and the same object can occur several times in one program
+# ----------------------------------------------------------------------------------------
+class Colour:
+    def __init__(self, name="colour"):
+        self.name = name
+
+    def __repr__(self):
+        return self.name
+
+
+def palette_grammar(expansion: bool = False):
+    """fresh palette and fresh productions for every grammar (objects labelled under one grammar keep their labels)"""
+    palette = [Colour("red"), Colour("green"), Colour("blue")]
+
+    class Picture(ABC):
+        pass
+
+    @dataclass
+    class Dot(Picture):
+        size: Annotated[int, IntRange(1, 4)]
+        ink: Annotated[Colour, VarRange(palette)]
+
+    @dataclass
+    class Frame(Picture):
+        border: Annotated[Colour, VarRange(palette)]
+        fill: Annotated[Colour, VarRange(palette)]
+        inner: Picture
+
+    @dataclass
+    class Over(Picture):
+        top: Picture
+        bottom: Picture
+
+    return extract_grammar([Dot, Frame, Over], Picture, expansion_depthing=expansion), (Picture, Dot, Frame, Over)
+
+
+def palette_counts(p, classes) -> dict:
+    """occurrences of every type in the program, by a walk over the constructor parameters"""
+    Picture, Dot, Frame, Over = classes
+    out: dict = {}
+    todo = [p]
+    while todo:
+        x = todo.pop()
+        out[type(x)] = out.get(type(x), 0) + 1
+        if isinstance(x, Dot):
+            todo += [x.size, x.ink]
+        elif isinstance(x, Frame):
+            todo += [x.border, x.fill, x.inner]
+        elif isinstance(x, Over):
+            todo += [x.top, x.bottom]
+    return out
